@@ -14,8 +14,9 @@
      add_cable raises ValueError when the name or the (lower-cased) identifier is taken; the
      caller then looks for the cable whose identifier is the net's NAME, else the net's identifier
      [none: StopIteration -> None] and moves the pins of the net to wire 0 of that cable.
-   Names containing * or ? are used as wildcard patterns by the real lookup; this model compares
-   exactly, so the correspondence and the theorems exclude such names ([no_wild]).
+   All four lookups are exact (EdifParser.find_cable; repaired K7: get_cables used a net name
+   containing * or ? as a wildcard pattern), so names with * or ? are ordinary names here.
+   When the handler finds no cable the ValueError of add_cable is raised again (None).
    No proofs in this file. *)
 From Coq Require Import List NArith Arith Bool.
 From SV Require Import Base.Base Fmt.EdifName Fmt.EdifCable Fmt.EdifBus.
